@@ -28,6 +28,7 @@ struct Thr {
     uint32_t vc[MAXT] = {0};
     int cur_op = -1, cur_kind = 0;
     uint64_t steps = 0, budget = 0;
+    uint32_t ev_in_op = 0;
     char *stack_lo = nullptr, *stack_hi = nullptr;
 };
 
@@ -59,6 +60,7 @@ struct State {
     Guard guards[GU_SIZE];
     uint8_t overlap[OV_DIM * OV_DIM];
     ThreadBody body = nullptr; void *body_arg = nullptr;
+    int window_state = 0;      // 0 armed, 1 runner executing its operation, 2 done
 };
 State G;
 thread_local Thr *self = nullptr;
@@ -93,6 +95,16 @@ void record_switch(int to) { if (G.nrec < sizeof G.rec / sizeof G.rec[0]) G.rec[
 void maybe_switch() {
     Thr *me = self;
     int to = 0;
+    ++me->ev_in_op;
+    if (G.sp.mode == 0 && G.sp.victim && G.window_state == 0 && me->tid == G.sp.victim && me->cur_op == G.sp.victim_op && me->ev_in_op >= G.sp.offset) {
+        Thr &r = G.t[G.sp.runner];
+        G.window_state = 2;
+        if (G.sp.runner >= 1 && G.sp.runner <= G.nthreads && G.sp.runner != me->tid && r.started && !r.finished && !r.blocked) {
+            G.window_state = 1; G.stats.preemptions++; record_switch(G.sp.runner); pass_baton(G.sp.runner);
+            if (me->in_op) note_overlap(me->cur_kind);
+            return;
+        }
+    }
     if (G.sp.mode == 0) {
         if (!G.sp.mean_gap || G.stats.preemptions >= G.sp.max_preemptions) return;
         if (G.countdown > 1) { --G.countdown; return; }
@@ -235,7 +247,7 @@ void rt_begin_run(int nthreads, const SchedParams &sp) {
     ++G.epoch; if (G.epoch == 0) { std::memset(G.shadow, 0, SH_SIZE * sizeof(Cell)); G.epoch = 1; }
     G.shadow_used = 0; G.nthreads = nthreads; G.event = 0; G.sp = sp; G.rng.seed(sp.seed);
     G.countdown = sp.mean_gap ? 1 + G.rng.below(2 * sp.mean_gap) : 0;
-    G.next_switch = 0; G.nrec = 0; G.stats = RunStats(); G.race = RaceReport();
+    G.next_switch = 0; G.nrec = 0; G.stats = RunStats(); G.race = RaceReport(); G.window_state = 0;
     for (int i = 0; i < MAXT; i++) {
         Thr &x = G.t[i];
         x.tid = i; x.started = x.finished = x.blocked = x.in_op = false; x.cur_op = -1; x.cur_kind = 0; x.steps = 0;
@@ -278,11 +290,20 @@ void rt_end_run(RunStats *stats, RaceReport *race, Switch *recorded, size_t *nre
 
 void rt_op_begin(int op_index, int op_kind, uint64_t step_budget) {
     Thr *me = self; if (!me) return;
-    me->cur_op = op_index; me->cur_kind = op_kind; me->steps = 0; me->budget = step_budget; me->in_op = true;
+    me->cur_op = op_index; me->cur_kind = op_kind; me->steps = 0; me->budget = step_budget; me->in_op = true; me->ev_in_op = 0;
     note_overlap(op_kind);
     if (G.active) { ++G.event; maybe_switch(); }
 }
-void rt_op_end() { Thr *me = self; if (!me) return; me->in_op = false; }
+void rt_op_end() {
+    Thr *me = self; if (!me) return;
+    me->in_op = false;
+    if (G.active && G.window_state == 1 && me->tid == G.sp.runner) {
+        // the runner finished one whole operation inside the victim's operation: hand the baton back
+        G.window_state = 2;
+        Thr &v = G.t[G.sp.victim];
+        if (v.started && !v.finished) { record_switch(G.sp.victim); pass_baton(G.sp.victim); }
+    }
+}
 int rt_tid() { return self ? self->tid : 0; }
 void rt_overlap_matrix(const uint8_t **m, int *dim) { *m = G.overlap; *dim = OV_DIM; }
 
